@@ -461,7 +461,10 @@ func (fc *FuncCtx) defaultCall(st *State, fn *types.Func, recv *Val, args []Val,
 	// pointer arguments to non-struct locations may be written by the callee: havoc them
 	havocLoc := func(v Val) {
 		if v.Loc != nil {
-			fc.writeLoc(st, v.Loc, fc.freshConst("out", v.Loc.Sort))
+			nv := fc.freshConst("out", v.Loc.Sort)
+			fc.writeLoc(st, v.Loc, nv)
+			// the new contents still have the location's type (arrays keep their length, integers their range)
+			st.assume(fc.typeFacts(nv, v.Loc.Typ))
 		}
 	}
 	fresh := hasReaderParam(fn)
@@ -528,7 +531,9 @@ func (fc *FuncCtx) applyContract(st *State, fn *types.Func, c *FuncContract, rec
 			id := v.Loc.id()
 			addr, ok := locAddr[id]
 			if !ok {
-				addr = fc.freshConst("addr", SV)
+				// the address of a local/field cell is a location of its own: distinct from nil, from every
+				// existing object and from the addresses of other cells
+				addr = fc.newRef(st, "addr")
 				locAddr[id] = addr
 				key := fc.memKey(v.Loc.Sort)
 				arr := fc.heapArr(st, key, v.Loc.Sort)
@@ -539,6 +544,11 @@ func (fc *FuncCtx) applyContract(st *State, fn *types.Func, c *FuncContract, rec
 			return
 		}
 		if v.T != nil {
+			if hasTypeParam(pt, 0) && v.Typ != nil {
+				// generic parameter: the argument keeps its own (instantiated) type and sort
+				names[name] = Val{T: v.T, Typ: v.Typ}
+				return
+			}
 			names[name] = Val{T: fc.coerce(st, v, pt), Typ: pt}
 			return
 		}
@@ -789,4 +799,24 @@ func (fc *FuncCtx) havocModifies(st *State, c *FuncContract, sc *specCtx, as *as
 		fc.writeLoc(st, l, nv)
 		st.assume(fc.typeFacts(nv, l.Typ))
 	}
+}
+
+// hasTypeParam reports whether a type mentions a type parameter (so that its sort depends on the instantiation).
+func hasTypeParam(t types.Type, depth int) bool {
+	if t == nil || depth > 6 {
+		return false
+	}
+	switch x := types.Unalias(t).(type) {
+	case *types.TypeParam:
+		return true
+	case *types.Pointer:
+		return hasTypeParam(x.Elem(), depth+1)
+	case *types.Slice:
+		return hasTypeParam(x.Elem(), depth+1)
+	case *types.Array:
+		return hasTypeParam(x.Elem(), depth+1)
+	case *types.Map:
+		return hasTypeParam(x.Key(), depth+1) || hasTypeParam(x.Elem(), depth+1)
+	}
+	return false
 }
